@@ -124,8 +124,16 @@ async def _drive(case: dict[str, Any], log: list[Any]) -> None:
             wrapper = PowerWrapper(ChannelRegistry(name="vf"), api_power_request_timeout=timedelta(seconds=5),
                                    component_category=ComponentCategory.BATTERY)
             wrapper._start_power_distributing_actor()  # noqa: SLF001
-            actor = wrapper._power_distributing_actor  # noqa: SLF001
-            tx = wrapper._power_distribution_requests_channel.new_sender()  # noqa: SLF001
+            actor = next(v for v in vars(wrapper).values() if isinstance(v, pd.PowerDistributingActor))
+            # the requests channel: the one Broadcast the wrapper holds besides its public ones and the results channel
+            public = [wrapper.status_channel, wrapper.proposal_channel, wrapper.bounds_subscription_channel,
+                      wrapper.distribution_results_fetcher()]
+            others = [v for v in vars(wrapper).values() if isinstance(v, Broadcast) and not any(v is c for c in public)]
+            if len(others) != 1:
+                from ..common import HarnessError
+
+                raise HarnessError(f"PowerWrapper holds {len(others)} candidate request channels")
+            tx = others[0].new_sender()
         else:
             reqc, resc, stc = Broadcast(name="req"), Broadcast(name="res"), Broadcast(name="st")
             actor = pd.PowerDistributingActor(reqc.new_receiver(limit=1000), resc.new_sender(), stc.new_sender(),
